@@ -75,6 +75,7 @@ fn run_chunker(run: &Run, out: &mut Trace) {
     let mut ch = StreamChunker::default();
     let fuel = 3 * stream.len() + 8;
     let mut eof = false;
+    let mut kept: Vec<owning_iovec::AnchoredSlice> = Vec::new(); // every Data chunk handed out stays reachable
     for _ in 0..fuel {
         let r = guarded(|| ch.pump(&mut arena, &mut rd, block));
         match r {
@@ -88,6 +89,7 @@ fn run_chunker(run: &Run, out: &mut Trace) {
             }
             Ok(Ok(Chunk::Data((off, slice)))) => {
                 out.emit(&json!({"run":run.run,"ev":"chunk","k":"D","off":off,"data":slice.slice(),"panic":"","err":""}));
+                kept.push(slice);
             }
             Ok(Err(e)) => {
                 out.emit(&json!({"run":run.run,"ev":"chunk","k":"X","off":0,"data":[],"panic":"","err":format!("{:?}", e.kind())}));
@@ -99,6 +101,15 @@ fn run_chunker(run: &Run, out: &mut Trace) {
             }
         }
     }
+    // C05: the arena moves on; every chunk handed out earlier must still be alive and unchanged
+    arena.flush_cache();
+    arena.ensure_capacity(5000);
+    let live = owning_iovec::verif::live_chunks();
+    let is_live = |a: usize, l: usize| l == 0 || live.iter().any(|(_, b, n)| a >= *b && a + l <= b + n);
+    let dangling = kept.iter().filter(|k| !is_live(k.slice().as_ptr() as usize, k.slice().len())).count();
+    let again: Vec<Value> = if dangling == 0 { kept.iter().map(|k| json!(k.slice())).collect() } else { vec![] };
+    out.emit(&json!({"run":run.run,"ev":"recheck","dangling":dangling,"chunks":again}));
+    drop(kept);
     out.emit(&json!({"run":run.run,"ev":"end","eof":eof as u8,"delivered":rd.pos}));
 }
 
@@ -119,20 +130,30 @@ fn run_reader(run: &Run, out: &mut Trace) {
     for _ in 0..(stream.len() + 3) {
         let r = guarded(|| match sr.next_record_bytes(&mut rd, &judge, block) {
             Ok(Some((iov, range))) => {
-                let data = match iov.flatten() {
-                    Ok(v) => (v, true),
-                    Err(v) => (v, false),
+                let live = owning_iovec::verif::live_chunks();
+                let dangling = iov
+                    .stable_prefix()
+                    .iter()
+                    .filter(|s| !live.iter().any(|(_, b, n)| s.as_ptr() as usize >= *b && s.as_ptr() as usize + s.len() <= b + n))
+                    .count();
+                let data = if dangling > 0 {
+                    (vec![], false)
+                } else {
+                    match iov.flatten() {
+                        Ok(v) => (v, true),
+                        Err(v) => (v, false),
+                    }
                 };
-                Ok(Some((data, range)))
+                Ok(Some(((data.0, data.1, dangling), range)))
             }
             Ok(None) => Ok(None),
             Err(e) => Err(format!("{:?}", e.kind())),
         });
         let lso = sr.last_sentinel_offset();
         match r {
-            Ok(Ok(Some(((data, okflat), range)))) => {
+            Ok(Ok(Some(((data, okflat, dangling), range)))) => {
                 out.emit(&json!({"run":run.run,"ev":"record","data":data,"a":range.start,"b":range.end,"lso":lso,
-                                 "flat_ok":okflat as u8,"panic":"","err":""}));
+                                 "flat_ok":okflat as u8,"dangling":dangling,"panic":"","err":""}));
             }
             Ok(Ok(None)) => {
                 out.emit(&json!({"run":run.run,"ev":"none","lso":lso,"panic":"","err":""}));
